@@ -61,6 +61,9 @@ EXTRA_TEMPLATES = [
     ('alias-op', "A: B", "; B: 'b';"),
     ('alias-basetype-op', "A: INT", ";"),
     ('alias-op-used', "M: a=A; A: B", "; B: x=ID;"),
+    # rule names that look like the names textX gives its own assignment expressions
+    ('rule-name-asgn', "__asgn", ": 'a';"),
+    ('rule-name-asgn-used', "M: xs+=__asgn_item; __asgn_item", ": name=ID;"),
 ]
 
 
